@@ -1,5 +1,155 @@
-//! C05 judge: raw tree store, header and proofs against the independent Merkle reference.
-use crate::world::World;
-pub fn judge_storage(_w: &mut World, _n: usize) {}
+//! C05 judge: raw tree store, header, log entries and proofs against the independent Merkle
+//! reference (`merkle::RefTree` over the writer's block sequence).
 
-pub fn judge_proof(_w: &mut World, _p: &hypercore::Proof) {}
+use crate::disk::{OPLOG, TREE};
+use crate::tamper::node_parts;
+use crate::world::World;
+use ed25519_dalek::{Signature, Verifier};
+use hypercore::Proof;
+
+fn verify_sig(w: &World, sig: &[u8], len: u64, fork: u64) -> Result<(), String> {
+    if len > w.reftree.len {
+        return Err(format!("signature for length {len} beyond the writer's {} blocks", w.reftree.len));
+    }
+    let s = Signature::from_slice(sig).map_err(|_| format!("signature has {} bytes", sig.len()))?;
+    let msg = w.reftree.signable(len, fork);
+    w.key
+        .verifying_key()
+        .verify(&msg, &s)
+        .map_err(|_| format!("signature does not verify over namespace||root hash||length {len}||fork {fork}"))
+}
+
+pub fn judge_storage(w: &mut World, n: usize) {
+    let files = w.files(n);
+    let tree = &files[TREE];
+    let mut bad = 0;
+    // every persisted node equals the scheme's value
+    let slots = tree.len() / 40;
+    for i in 0..slots {
+        let s = &tree[i * 40..i * 40 + 40];
+        if s.iter().all(|b| *b == 0) {
+            continue;
+        }
+        let size = u64::from_le_bytes(s[..8].try_into().unwrap());
+        let hash = &s[8..40];
+        match w.reftree.node(i as u64) {
+            Some((h, sz)) => {
+                if h != hash || sz != size {
+                    bad += 1;
+                    if bad <= 3 {
+                        w.viol(
+                            "C05.tree",
+                            format!("node {n}: persisted tree node {i} (size {size}) differs from the reference value (size {sz})"),
+                        );
+                    }
+                }
+            }
+            None => {
+                bad += 1;
+                if bad <= 3 {
+                    w.viol("C05.tree", format!("node {n}: tree store holds node {i} which is not a full node of the log"));
+                }
+            }
+        }
+    }
+    if tree.len() % 40 != 0 {
+        w.viol("C05.tree", format!("node {n}: tree store length {} is not a multiple of 40", tree.len()));
+    }
+    let st = match crate::jsfmt::read_store(&files) {
+        Ok(s) => s,
+        Err(_) => return, // C06's clause
+    };
+    // header
+    let h = &st.header;
+    if h.length > 0 {
+        if h.length > w.reftree.len {
+            w.viol("C05.header", format!("node {n}: header length {} beyond the writer's log", h.length));
+        } else {
+            let rh = w.reftree.root_hash(h.length);
+            if h.root_hash != rh {
+                w.viol("C05.header", format!("node {n}: header root_hash differs from the reference tree hash for length {}", h.length));
+            }
+            if let Err(e) = verify_sig(w, &h.signature, h.length, h.fork) {
+                w.viol("C05.signature", format!("node {n}: stored header signature: {e}"));
+            }
+        }
+    }
+    // entries
+    for e in &st.entries {
+        for (i, size, hash) in &e.tree_nodes {
+            match w.reftree.node(*i) {
+                Some((rh, rs)) if rh == *hash && rs == *size => {}
+                _ => {
+                    w.viol("C05.tree", format!("node {n}: log entry carries tree node {i} differing from the reference"));
+                    break;
+                }
+            }
+        }
+        if let Some((fork, _anc, len, sig)) = &e.upgrade {
+            if let Err(err) = verify_sig(w, sig, *len, *fork) {
+                w.viol("C05.signature", format!("node {n}: log entry upgrade signature: {err}"));
+            }
+        }
+    }
+    // after a flush a writer has every full node below its length on disk
+    if n == 0 && st.entries.is_empty() && files[OPLOG].len() <= 8192 {
+        w.stats.probe("tree_completeness_checked");
+        let len = st.length;
+        let mut missing = 0;
+        for i in 0..(2 * len).saturating_sub(1) {
+            if ft_full(i, len) {
+                let present = (i as usize + 1) * 40 <= tree.len()
+                    && !tree[i as usize * 40..i as usize * 40 + 40].iter().all(|b| *b == 0);
+                if !present {
+                    missing += 1;
+                    if missing <= 2 {
+                        w.viol("C05.tree", format!("writer flushed at length {len} but full tree node {i} is not persisted"));
+                    }
+                }
+            }
+        }
+    }
+}
+
+fn ft_full(i: u64, len: u64) -> bool {
+    crate::merkle::ft::exists(i, len)
+}
+
+pub fn judge_proof(w: &mut World, p: &Proof) {
+    let mut check_nodes = |w: &mut World, what: &str, nodes: &Vec<hypercore::Node>| {
+        for nd in nodes {
+            let (index, len, hash) = node_parts(nd);
+            match w.reftree.node(index) {
+                Some((h, s)) if h[..] == hash[..] && s == len => {}
+                other => {
+                    let m = format!(
+                        "served proof: {what} node {index} (size {len}) differs from the reference {:?}",
+                        other.map(|x| x.1)
+                    );
+                    w.viol("C05.proof", m);
+                    return;
+                }
+            }
+        }
+    };
+    if let Some(b) = &p.block {
+        check_nodes(w, "block", &b.nodes);
+        if w.truth.blocks.get(b.index as usize) != Some(&b.value) {
+            w.viol("C05.proof", format!("served proof: block {} value differs from the appended bytes", b.index));
+        }
+    }
+    if let Some(h) = &p.hash {
+        check_nodes(w, "hash", &h.nodes);
+    }
+    if let Some(s) = &p.seek {
+        check_nodes(w, "seek", &s.nodes);
+    }
+    if let Some(u) = &p.upgrade {
+        check_nodes(w, "upgrade", &u.nodes);
+        check_nodes(w, "additional", &u.additional_nodes);
+        let len = w.truth.len();
+        if let Err(e) = verify_sig(w, &u.signature, len, p.fork) {
+            w.viol("C05.signature", format!("served proof: upgrade signature: {e}"));
+        }
+    }
+}
